@@ -57,17 +57,30 @@ pub fn pure_rules(seed: u64, n: u64) -> Out {
         let url_set = rng.chance(1, 2);
         let conn_set = rng.chance(1, 2);
         let url = if rng.chance(1, 2) { rng.pick(BAD_URLS).to_string() } else { rng.pick(GOOD_URLS).to_string() };
-        let url_ok = url.as_str().into_connection_info().is_ok();
+        // cluster / sentinel take a list: mix well-formed and malformed entries
+        let mut url_list: Vec<String> = vec![url.clone()];
+        if flavour != 0 {
+            for _ in 0..rng.usize_below(3) {
+                let u = if rng.chance(1, 4) { rng.pick(BAD_URLS).to_string() } else { rng.pick(GOOD_URLS).to_string() };
+                if rng.chance(1, 2) {
+                    url_list.push(u);
+                } else {
+                    url_list.insert(0, u);
+                }
+            }
+        }
+        let url_ok = url_list.iter().all(|u| u.as_str().into_connection_info().is_ok());
+        let url = url_list.join(" | ");
         let conn = ci(&mut rng);
         let desc = format!("flavour={} url={:?} connection={:?}", ["redis", "cluster", "sentinel"][flavour as usize], if url_set { Some(&url) } else { None }, if conn_set { Some(&conn) } else { None });
         o.case(&desc, url_set);
         let res: Result<Result<(), ConfigError>, _> = catch_unwind(AssertUnwindSafe(|| match flavour {
-            0 => Config { url: if url_set { Some(url.clone()) } else { None }, connection: if conn_set { Some(conn.clone()) } else { None }, pool: None }.builder().map(|_| ()),
-            1 => deadpool_redis::cluster::Config { urls: if url_set { Some(vec![url.clone()]) } else { None }, connections: if conn_set { Some(vec![conn.clone()]) } else { None }, pool: None, read_from_replicas: rng.chance(1, 2) }
+            0 => Config { url: if url_set { Some(url_list[0].clone()) } else { None }, connection: if conn_set { Some(conn.clone()) } else { None }, pool: None }.builder().map(|_| ()),
+            1 => deadpool_redis::cluster::Config { urls: if url_set { Some(url_list.clone()) } else { None }, connections: if conn_set { Some(vec![conn.clone()]) } else { None }, pool: None, read_from_replicas: rng.chance(1, 2) }
                 .builder()
                 .map(|_| ()),
             _ => deadpool_redis::sentinel::Config {
-                urls: if url_set { Some(vec![url.clone()]) } else { None },
+                urls: if url_set { Some(url_list.clone()) } else { None },
                 connections: if conn_set { Some(vec![conn.clone()]) } else { None },
                 server_type: Default::default(),
                 master_name: "m".into(),
@@ -91,7 +104,8 @@ pub fn pure_rules(seed: u64, n: u64) -> Out {
                         o.bump("good_url");
                         if let Err(e) = r {
                             // the cluster / sentinel clients of the redis crate refuse unix sockets themselves
-                            let backend_limit = flavour != 0 && url.contains("unix") && matches!(e, ConfigError::Redis(_));
+                            // (and lists whose entries disagree about credentials / protocol)
+                            let backend_limit = flavour != 0 && (url.contains("unix") || url_list.len() > 1) && matches!(e, ConfigError::Redis(_));
                             if backend_limit {
                                 o.bump("url_refused_by_backend");
                             } else {
